@@ -77,6 +77,7 @@ type caseRun struct {
 	s        *kcp.TimedSched
 	timeout  bool
 	panicked string
+	ctlWorst atomic.Int64 // worst oversleep of the control timers (ns)
 }
 
 func (c *caseRun) task(id int, chain int, iv, busy time.Duration) func() {
@@ -129,6 +130,24 @@ func runCase(sp *spec) (c *caseRun) {
 	}()
 	c.s = kcp.NewTimedSched(sp.k)
 	defer c.s.Close()
+	// control group: how late does a plain 2 ms runtime timer fire on this machine right now?  A
+	// lateness verdict about the scheduler under test is only meaningful if the control is prompt.
+	stopCtl := make(chan struct{})
+	go func() {
+		for {
+			select {
+			case <-stopCtl:
+				return
+			default:
+			}
+			t0 := time.Now()
+			time.Sleep(2 * time.Millisecond)
+			if over := time.Since(t0) - 2*time.Millisecond; int64(over) > c.ctlWorst.Load() {
+				c.ctlWorst.Store(int64(over))
+			}
+		}
+	}()
+	defer close(stopCtl)
 	start := time.Now()
 	c.origin = start.Add(-originBack)
 	var wg sync.WaitGroup
@@ -153,9 +172,12 @@ func runCase(sp *spec) (c *caseRun) {
 	wg.Wait()
 	limit := start.Add(sp.maxOff + quiescence)
 	for c.first.Load() < int64(sp.total) {
-		if time.Now().After(limit) {
-			c.timeout = true
-			break
+		if now := time.Now(); now.After(limit) {
+			// on a machine that stalls plain timers the quiescence period is stretched (up to 30 s)
+			if time.Duration(c.ctlWorst.Load()) <= lateBound/4 || now.After(limit.Add(30*time.Second)) {
+				c.timeout = true
+				break
+			}
 		}
 		time.Sleep(300 * time.Microsecond)
 	}
@@ -515,7 +537,10 @@ func emit(o *hx.Out, c *caseRun, mode string, seed uint64, tier string) {
 		if late > worstLate {
 			worstLate = late
 		}
-		if late >= lateBound {
+		if late >= lateBound && time.Duration(c.ctlWorst.Load()) > lateBound/4 {
+			// the machine itself was stalling plain timers by more than a quarter of the bound
+			o.Count("late-but-machine-overloaded")
+		} else if late >= lateBound {
 			viol("sched-late", fmt.Sprintf("task %d ran %v after max(deadline, Put) (deadline %+v from start, put at %+v) — bound %v, %d CPUs",
 				e.id, late, time.Duration(p.dl)-originBack, time.Duration(p.at)-originBack, lateBound, numCPU()))
 		}
